@@ -55,7 +55,7 @@ def _enrich(f, ev, hdr):
     if f["clause"] == "X06.store.inside" and isinstance(det, list):
         names = [x[2] for x in det if isinstance(x, list) and len(x) > 2]
         f["outside"] = "dotdot" if names and all("/esc" in n for n in names) else "other"
-    if f["clause"] in ("X06.store.place", "X06.auth.notrace") and "delta" in kv:
+    if f["clause"] in ("X06.store.place", "X06.auth.notrace", "X06.mpd.stored") and "delta" in kv:
         out = [x for x in kv["delta"] if isinstance(x, list) and len(x) > 5 and not x[5]]
         f["strayCwd"] = bool(out) and all(str(x[2]).startswith("cwd:") for x in out)
     return f
@@ -90,7 +90,7 @@ def run(tier, replay=None):
             ("ReceiverCfg_MC", "ReceiverCfg_two_quick.cfg" if q else "ReceiverCfg_two_thorough.cfg", dict(workers=wk, required_actions=("Step",)))]
     witnesses = ["NeverUnauth", "NeverEither", "NeverRemoved", "NeverRawLimit", "NeverCrossOpen"]
     jobs += [("ReceiverCfg_MC", f"ReceiverCfg_witness_{w}.cfg", dict(workers=1, expect="violation", expect_violated=(w,), coverage=False)) for w in witnesses]
-    gen_cfgs = ["ReceiverCfg_gen1.cfg", "ReceiverCfg_gen2.cfg"] + ([] if q else ["ReceiverCfg_gen3_thorough.cfg", "ReceiverCfg_gen4_thorough.cfg"])
+    gen_cfgs = ["ReceiverCfg_gen1.cfg", "ReceiverCfg_gen2.cfg", "ReceiverCfg_gen_tsbd.cfg"] + ([] if q else ["ReceiverCfg_gen3_thorough.cfg", "ReceiverCfg_gen4_thorough.cfg"])
     ngen0 = len(jobs)
     jobs += [("ReceiverCfg_MC", g, dict(workers=2, coverage=False)) for g in gen_cfgs]
     res = c.models(jobs, parallel=4 if q else 3)
@@ -127,10 +127,19 @@ def run(tier, replay=None):
             cur = e
         hdr_at[i] = cur
         kinds[e["ev"]] = kinds.get(e["ev"], 0) + 1
-    for k in ("hdr", "run", "req", "mpd", "tree"):   # every action of the trace spec is taken
+    for k in ("hdr", "run", "req", "tree"):   # every action of the trace spec is taken ("mpd" depends on the receiver: X06.mpd.written demands it)
         if not kinds.get(k):
             raise MachineryError(f"trace vacuity: no '{k}' event recorded ({kinds})")
     c.extra["trace_events_by_kind"] = kinds
+    main_reqs = [e for e in events if e["ev"] == "req" and e["run"] == "main"]
+    c.extra["observed"] = {   # informational (what the receiver did; never gating)
+        "media_files_removed_in_main_runs": sum(1 for e in main_reqs for x in e["delta"] if x["op"] == "-"),
+        "files_written_in_main_runs": sum(1 for e in main_reqs for x in e["delta"] if x["op"] in "+~" and x["kind"] != "dir"),
+        "requests_without_any_change": sum(1 for e in main_reqs if not e["delta"]),
+        "answers_401": sum(1 for e in main_reqs if e["status"] == 401),
+        "timeline_mpds_read": sum(1 for e in events if e["ev"] == "mpd" and e["which"] == "timeline" and e["run"] == "main"),
+        "manifest_mpds_read": sum(1 for e in events if e["ev"] == "mpd" and e["which"] == "manifest" and e["run"] == "main"),
+        "reference_requests_compared": sum(1 for e in events if e["ev"] == "req" and e["run"] != "main")}
     for f in vlib.bad_to_failures(r, events):
         if f["clause"].startswith("X06.machinery"):
             raise MachineryError(f"scenario construction / trace problem: {json.dumps(f)[:800]}")
